@@ -10,6 +10,7 @@ CONSTANTS
   Plans = {"whole", "hdr"}
   Frames <- FramesTiny
   MaxFrames = 2
+  Spellings <- SpellCanon
   Pres = {"none"}
   PushPays <- PushNone
 INIT MCInit
